@@ -6,6 +6,6 @@ CONSTANTS
   MaxRestarts = 1000
   BugStaleFlag = FALSE
   KindChoices <- OneChain
-  Depth = 160
+  Depth = 320
 INVARIANT Emit
 CHECK_DEADLOCK FALSE
